@@ -1118,7 +1118,9 @@ func famPkg(tr *Trace, scratch string, seed int64, tier string, workers int, pro
 		id++
 		cases = append(cases, genPkgCase(rng, id, profile, scratch, tier))
 	}
-	cases = append(cases, systematicPkgCases(&id, profile, scratch, rng, tier)...)
+	if os.Getenv("VERIF_PKG_SYSTEMATIC") != "0" { // (the binding self-test works on a handful of generated cases only)
+		cases = append(cases, systematicPkgCases(&id, profile, scratch, rng, tier)...)
+	}
 	var par, seq []*PkgCase
 	for _, pc := range cases {
 		if pc.Cfg.UseSDE {
